@@ -43,6 +43,10 @@ end
 
 instance : BEq Val := ⟨Val.beq⟩
 
+def isFnVal : Val → Bool
+  | .fn _ => true
+  | _ => false
+
 /-! ### text -/
 
 def intText (i : Int) : String := toString i
